@@ -15,7 +15,7 @@ import time
 from collections import deque
 
 from .. import core, tla
-from ..xmlbind import Doc
+from ..xmlbind import Doc, NS
 
 AXES = ["self", "child", "attribute", "parent", "ancestor", "ancestor-or-self", "descendant",
         "descendant-or-self", "following-sibling", "preceding-sibling", "following", "preceding"]
@@ -37,6 +37,10 @@ CONFIGS = {
                        Tests={"node()", "*", "a", "text()"}, Preds={"1", "last()"}, ParenPreds={"last()"}, Preds2=set())),
         ('N4', dict(N=4, Kinds={"ea", "eb", "t"}, RootCfg="R1", Axes=set(AXES),
                     Tests={"node()", "*", "a", "text()"}, Preds={"2"}, ParenPreds={"2"}, Preds2=set())),
+        # namespaced names: prefix:name, prefix:*, *:name tests (urn:x is a string prefix of urn:x-y)
+        ('N3-NS', dict(N=3, Kinds={"ea", "en", "em", "xn"}, RootCfg="R1",
+                       Axes={"self", "child", "attribute", "parent", "descendant", "descendant-or-self"},
+                       Tests={"node()", "*", "a", "p:a", "p:*", "q:*", "*:a"}, Preds=set(), ParenPreds=set(), Preds2=set())),
         # steps with TWO predicates: the second numbers the survivors of the first along the axis
         ('N3-P2', dict(N=3, Kinds={"ea", "eb", "t"}, RootCfg="R1",
                        Axes={"child", "descendant", "ancestor", "ancestor-or-self", "preceding", "preceding-sibling",
@@ -59,6 +63,9 @@ CONFIGS = {
                        Axes={"child", "descendant", "ancestor", "ancestor-or-self", "preceding", "preceding-sibling",
                              "following", "following-sibling"},
                        Tests={"node()", "*"}, Preds=set(), ParenPreds=set(), Preds2={"position()<3", "b"})),
+        ('N3-NS-full', dict(N=3, Kinds={"ea", "en", "em", "xn", "xa", "t"}, RootCfg="R1", Axes=set(AXES),
+                            Tests={"node()", "*", "a", "p:a", "p:*", "q:a", "q:*", "*:a"}, Preds={"1", "last()"},
+                            ParenPreds=set(), Preds2=set())),
         ('N5', dict(N=5, Kinds={"ea", "eb", "t"}, RootCfg="R1", Axes=set(AXES),
                     Tests={"node()", "*", "a", "text()"}, Preds={"2", "last()"}, ParenPreds={"2"}, Preds2=set())),
     ],
@@ -151,7 +158,7 @@ def get_selector(version: str, text: str):
         if len(_sel_cache) > 300000:
             _sel_cache.clear()
         try:
-            s = Selector(text, parser=_parsers()[version])
+            s = Selector(text, namespaces=NS, parser=_parsers()[version])
         except Exception as e:  # parse failure is an observation, not a crash
             s = e
         _sel_cache[key] = s
@@ -179,9 +186,9 @@ def ep_eval(doc: Doc, root_cfg: str, version: str, text: str, mode: str):
                 raise sel
             res = list(sel.iter_select(root, **kw))
         elif mode == 'select':
-            res = elementpath.select(root, text, parser=_parsers()[version], **kw)
+            res = elementpath.select(root, text, namespaces=NS, parser=_parsers()[version], **kw)
         else:
-            res = list(elementpath.iter_select(root, text, parser=_parsers()[version], **kw))
+            res = list(elementpath.iter_select(root, text, namespaces=NS, parser=_parsers()[version], **kw))
     except Exception as e:
         code = getattr(e, 'code', None)
         return ('err', type(e).__name__, code)
@@ -192,7 +199,7 @@ def ep_eval(doc: Doc, root_cfg: str, version: str, text: str, mode: str):
 
 def lx_eval(doc: Doc, root_cfg: str, text: str):
     try:
-        res = (doc.tree if root_cfg == 'R1' else doc.root).xpath(text)
+        res = (doc.tree if root_cfg == 'R1' else doc.root).xpath(text, namespaces=NS)
     except Exception as e:
         return ('err', type(e).__name__, None)
     return doc.project(res)
@@ -239,13 +246,16 @@ def tree_worker(job):
                 # second oracle: libxml2 (not for fragments: a parentless root has no libxml2 counterpart;
                 # lxml evaluates relative paths of a tree from the root element, so only absolute texts in R1;
                 # lxml cannot return the document node)
-                if root_cfg == 'R1' and text.startswith(('/', '(/')) and 0 not in expected:
+                xp1 = '*:' not in text     # the wildcard-prefix name test is XPath 2.0+
+                if xp1 and root_cfg == 'R1' and text.startswith(('/', '(/')) and 0 not in expected:
                     lres = lx_eval(docs['lxml'], root_cfg, text)
                     stats['lx_evals'] += 1
                     if lres != expected:
                         oracle_disagreements.append(dict(tree=[parent, kind], root=root_cfg, path=text,
                                                          spec=expected, libxml2=lres))
                 for v in versions:
+                    if v == '1.0' and not xp1:
+                        continue
                     for lib in ('etree', 'lxml'):
                         if modes_all:
                             modes = ('selector', 'selector_iter', 'select', 'iter_select')
